@@ -3,11 +3,11 @@ import os
 import re
 import vlib
 
-STAGES = ("lex", "parse", "check", "regex")
-FIELD_SPLIT = re.compile(r";(?=(?:lex|parse|check|regex|note)=)")
+STAGES = ("lex", "parse", "check", "regex", "render")
+FIELD_SPLIT = re.compile(r";(?=(?:lex|parse|check|regex|render|note)=)")
 
 FRONT_RULE = (
-    "FUZZING, not proof. Byte strings from five seeded generators (the letter is the id prefix): "
+    "FUZZING, not proof. Byte strings from six seeded generators (the letter is the id prefix): "
     "g = random grammar of Elk expressions/statements/declarations (closures with and without arrow, `a ?? b`/`a || b`/`a && b` "
     "directly as call arguments, regex literals with odd bodies such as `(?#`, string interpolation, macros/quote/unquote, "
     "switch patterns, generics, type annotations); m = token-level mutations (lex a valid program, delete/duplicate/swap/replace "
@@ -16,10 +16,22 @@ FRONT_RULE = (
     "run time; r = raw random bytes / punctuation soup of length 1..40 and random regex-body fragments; x = 1..3 token inputs over a "
     "25-token alphabet (quick: a seeded sample making up 1/5 of the inputs; thorough: all 16 275, once joined with a space and once with "
     "nothing, in addition to the generated inputs); "
+    "p = EVERY-BYTE-POSITION prefix truncation (what the REPL lexes and parses after each keystroke): for each base text b and "
+    "each 0 < i <= len(b) the inputs b[:i] and b[:i]+newline (so that the cut element also ENDS A SOURCE LINE: the diagnostic excerpt "
+    "of that line is re-lexed without its newline), deduplicated; bases = every input: string of lexer/*_test.go (all of them, both "
+    "tiers), input:/source: strings of parser/*_test.go (quick: a seeded sample of n/12; thorough: all) and snippets of a LITERAL "
+    "grammar (n/8 quick, 4n thorough) covering every literal kind the lexer has a scanner or a mode for - ints in every base with "
+    "valid/invalid digits, underscores and suffixes, floats/exponents, strings/raw strings/chars with every escape form cut short, "
+    "interpolation, symbols, quoted identifiers, regex literals, ranges, comments, and the collection literals %w[ %s[ %x[ %b[ and "
+    "their ^ and backslash forms with valid and INVALID elements, any separator, closed / closed with capacity / not closed; the "
+    "same literal grammar also feeds the atoms of g (hence m and t); stages lex, parse, render only; "
     "c = corpus/C03.front.txt replayed first. Each input runs in one of 8 worker subprocesses through lexer.Lex, parser.Parse, "
     "checker.CheckSource (fresh global environment per input, ~30 ms; it only does work when the parser accepts the input, "
     "which is the case for about 1 input in 5, otherwise it returns the parser's diagnostics: recorded as check=skip) and "
-    "regex.Transpile(input as a regex body, 10 flag bytes), every stage under its own recover(). Watchdog: 2 s of CPU on one input "
+    "regex.Transpile(input as a regex body, 10 flag bytes) and the render stage = the REPORTING step of `elk run`/the REPL: the "
+    "diagnostics of parser.Parse and of the checker stage printed by DiagnosticList.HumanStringWithSourceMap(style, lexer.Colorizer) "
+    "(each excerpt line is re-lexed by lexer.Colorize) plus lexer.Colorize on the whole input and on each of its lines; "
+    "every stage under its own recover(). Watchdog: 2 s of CPU on one input "
     "(or 20 s wall) abandons it; it is retried alone in a fresh worker with 6 s CPU / 60 s wall and only a second expiry counts as "
     "a timeout (site = deepest frame common to 8 stack samples); a dead worker's in-flight input is likewise retried alone. "
     "Gating observable: no stage panics, no worker dies, no timeout. non-trivial = the input produced at least one diagnostic "
